@@ -533,6 +533,45 @@ def c17_4(ck, prog):
                     'pending calls are not looked up by the message\'s reply serial')
 
 
+def c17_8(ck, prog):
+    r = ck.rule('C17.8', 'the I/O path of a connection is given back on every path on which it was obtained: each '
+                'successful _dbus_connection_acquire_io_path is followed by _dbus_connection_release_io_path before '
+                'the function returns', 'PAIR',
+                breaks='one early return leaves the I/O path taken for ever: no thread can read or write the '
+                'connection again, replies sit unread, blocking calls never return and pending calls end in NoReply',
+                floor=2)
+    ACQ, REL = '_dbus_connection_acquire_io_path', '_dbus_connection_release_io_path'
+    n = 0
+    for fn in lib.prod_funcs(prog, files={CONN}):
+        acq = {c['id'] for b, i, c in fn.calls(ACQ)}
+        if not acq or fn.name in (ACQ, REL):
+            continue
+        n += 1
+
+        def on_event(user, ev, ctx):
+            if ev['ev'] == 'call' and ev['e'].get('callee') == REL:
+                return False
+            return user
+
+        def on_edge(user, bid, idx, atom, sense, ctx, acq=acq):
+            if atom is not None and atom[0] == 'truthy' and atom[1].get('k') == 'call' and atom[1]['id'] in acq:
+                return bool(sense)
+            return user
+
+        def on_exit(user, ctx, ret, ev, fn=fn):
+            if user:
+                ctx.report('%s returns with the I/O path still acquired' % fn.name,
+                           ev['line'] if ev else fn.endline, key=('held', ev['line'] if ev else 0))
+        ex = Explorer(fn, init=False, on_event=on_event, on_edge=on_edge, on_exit=on_exit, calls={ACQ},
+                      track='auto', cap=600000).run()
+        if ex.reports:
+            r.from_reports(ex.reports, keyfn=lambda k, rep, fn=fn: '%s:io-path-held-at-exit' % fn.name)
+        else:
+            r.ok('%s:io-path-paired' % fn.name)
+    if n < 2:
+        raise AnalysisBroken('users of the I/O path not found (%d)' % n)
+
+
 def run(ck):
     ck.explanation = (
         'Static rules over dbus-connection.c and dbus-pending-call.c: (WHO) completion goes through one funnel '
@@ -549,6 +588,7 @@ def run(ck):
         c17_5(ck, prog)
         c17_6(ck, prog)
         c17_7(ck, prog)
+        c17_8(ck, prog)
         c17_2(ck, prog)
         c17_3(ck, prog)
         c17_4(ck, prog)
